@@ -123,13 +123,18 @@ func suiteProxy(r *rng, n int) {
 			if cr.chance(40) {
 				qs = append(qs, "a:9")
 			}
+			if cr.chance(35) {
+				// values and names that the encoding must keep apart from the syntax of a query string, a second value
+				// for a name, names that sort before the others
+				qs = append(qs, cr.pick([]string{"k:v w", "a&b:c=d", "pct:100%", "B:caf\xc3\xa9", "k:x+y", "sl:a/b?c#d", "~t.i-l_d:ok"}))
+			}
 		}
 		lc.Rewrites, lc.ReqHeaders, lc.RespHeaders, lc.QueryStrings = rewrites, reqH, respH, qs
 		upAE := cr.pick([]string{"", "", "gzip", "br"})
 		mu.Lock()
 		cacheable = cr.chance(70)
 		cc := cacheable
-		originAge = cr.pick([]string{"", "", "7", "31"})
+		originAge = cr.pick([]string{"", "", "7", "31", "60", "3600"})
 		oAge := originAge
 		mu.Unlock()
 		cache.ResetDispatchers(nil)
@@ -152,15 +157,9 @@ func suiteProxy(r *rng, n int) {
 		e.Use(server.NewProxy(s))
 		e.ALL("/*", func(c *elton.Context) error { return nil })
 		p := &pipeline{e: e}
-		// the location's query as url.Values.Encode renders it (keys sorted), computed here from the configured pairs
-		lqv := url.Values{}
-		for _, kv := range qs {
-			if j := strings.IndexByte(kv, ':'); j > 0 {
-				lqv.Add(kv[:j], kv[j+1:])
-			}
-		}
-		lq := lqv.Encode()
-		emit("proxy", "case", itoa(int64(i)), encList(rewrites), encList(reqH), encList(respH), hx(lq), hx(upAE), b2s(cc), hx(oAge))
+		// the configured name:value pairs go to the judge as they are: what the location's query must look like on the
+		// wire (url.Values.Encode: names sorted, everything escaped) is computed by the Lean model (Model/Query.lean)
+		emit("proxy", "case", itoa(int64(i)), encList(rewrites), encList(reqH), encList(respH), encList(qs), hx(upAE), b2s(cc), hx(oAge))
 		path := cr.pick([]string{"/api/users/1", "/old", "/plain/x", "/api/a b", "/api/", "/rest/v1/user/42", "/rest/a/user/b/user/c",
 			"/rest//user/", "/rest/v1/xy/z", "/rest/v 1/user/4 2", "/api/rest/q/user/7", "/files/a%2Fb", "/plain/x%3By/c%2fd", "/plain/50%25"})
 		rawQ := cr.pick([]string{"", "", "b=2&a=1", "flag", "q=a%20b&q=c", "z=&y", "x=1&x=2&k=old"})
